@@ -29,6 +29,7 @@ class Guard:
     def __init__(self, facts, fn, idx_did, grp_did):
         self.facts, self.fn, self.idx, self.grp = facts, fn, idx_did, grp_did
         self.decls = {v["did"]: v for v in walk(tbf.body(fn)) if v.get("k") == "VarDecl" and "did" in v}
+        self.bind = {}
 
     def bad(self, n, why=""):
         raise AnalysisBroken("%s: exit guard not decidable by the mapper-exit rule (%s): `%s`" % (self.fn["qname"], why or n.get("k"), self.facts.ntext(n)[:100]))
@@ -51,6 +52,8 @@ class Guard:
             return self.ev(kids(n)[-1], M)
         if k == "DeclRefExpr":
             d = n.get("did")
+            if d in self.bind:
+                return self.bind[d]
             if d == self.idx:
                 return ("IDX",)
             if d == self.grp:
@@ -90,6 +93,8 @@ class Guard:
             a = self.ev(kids(n)[0], M)
             if nm == "indexSrc" and isinstance(a, tuple) and a[0] == "ELEM":
                 return a[1]
+            if nm in ("indexTarget", "globalTargetPos") and isinstance(a, tuple) and a[0] == "ELEM":
+                return ("OTHERKEY", nm)
             if nm in ("first", "second") and isinstance(a, tuple) and a[0] == "MINMAX":
                 return ("IT", a[1] if nm == "first" else a[2])
             self.bad(n, "member " + str(nm))
@@ -202,3 +207,18 @@ def decide(facts, fn, res, R, idx_did, grp_did, stop):
                           "the mapper returns under `%s` before walking the list; counter-model: source indices %s, group intervals %s: %s - those interactions are never handed to the between-group operator, in one direction only"
                           % (txt, list(cm[0][0]), list(cm[0][1]), cm[1]))
     return n
+
+
+def lambda_table(facts, fn, lam, x_values, y_values, idx_did, grp_did):
+    """truth table of a two-parameter comparator lambda whose body is a single return"""
+    rets = [r for r in walk(lam) if r.get("k") == "ReturnStmt"]
+    ps = lam.get("params", [])
+    if len(rets) != 1 or len(ps) != 2 or not kids(rets[0]):
+        raise AnalysisBroken("%s: comparator at line %d is not a two-parameter single-return lambda" % (fn["qname"], lam["l"][1]))
+    g = Guard(facts, fn, idx_did, grp_did)
+    out = {}
+    for x in x_values:
+        for y in y_values:
+            g.bind = {ps[0]["did"]: x, ps[1]["did"]: y}
+            out[(x, y)] = bool(g.ev(kids(rets[0])[0], ((), ())))
+    return out
